@@ -241,9 +241,13 @@ class Judge:
                 self.decided -= 1
             return True
         if fd_ok and fd_decisive:
-            # complex step unusable (non-analytic code path) but finite differences confirm the claimed value
+            # either the complex step is unusable (non-analytic code path) and finite differences confirm the claimed
+            # value, or the discrepancy is real but lies between the two floors (1e-9 .. 1e-6 relative to the block)
             self.decided += 1
-            ctx.count("decided_by_fd_only")
+            if np.all(np.isfinite(Dcs)) and np.all(np.abs(Dcs - Dfd) <= tol_fd):
+                ctx.count("accepted_by_fd:discrepancy_between_1e-9_and_1e-6_of_block_scale")
+            else:
+                ctx.count("accepted_by_fd:complex_step_unusable")
             return True
         if fd_finite and not fd_ok:
             i = np.unravel_index(np.argmax(np.abs(J - Dfd) - tol_fd), J.shape)
